@@ -27,7 +27,7 @@ ASSUMPTIONS = [
     "uncontended latency uses model M3 with the CPU count of the actual assignment",
 ]
 NSHARDS = {"quick": 16, "thorough": 16}
-N_SIM = {"quick": 40, "thorough": 900}
+N_SIM = {"quick": 40, "thorough": 7000}
 REQUIRE = {"stat_fields_compared": 5000, "pipelines_completed_checked": 1000, "empty_class_compared": 100,
            "runs_without_arrivals": 5, "runs_without_completions": 10, "runs_without_container_endings": 5,
            "uncontended_latency_checked": 30, "sim_release_checked": 0}
@@ -81,7 +81,7 @@ def cases(tier, seed, shard, nshards):
     rng = rng_for(ID, seed, shard)
     for which in ("no-arrivals", "no-completions", "sub-tick", "empty-class", "heavy-failure", "empty-class"):
         yield directed(rng, which)
-    for i in range(6 if tier == "quick" else 80):
+    for i in range(6 if tier == "quick" else 600):
         yield uncontended_case(rng)
     for i in range(N_SIM[tier]):
         yield _sim.random_sim_case(rng, small=rng.random() < 0.8, allow_pp_single=False)
